@@ -154,6 +154,11 @@ def run(rep, tier):
     rep.floor = 2000
 
 
+def san_shards(tier):
+    """unwinding through engine frames and leaked guards under Miri"""
+    return [("miri", [("pool", 500 + i, 3, "miri") for i in range(16)])]
+
+
 def replay(path):
     d = json.load(open(path))
     r = d["replay"]
